@@ -138,6 +138,12 @@ func (u *Universe) Solve(o *Obligation, dir string, timeoutS int, thorough bool)
 	fc := base + ".cvc5.smt2"
 	os.WriteFile(fz, []byte(u.smtText(o, false, true)), 0o644)
 	res := &SolveResult{File: fz, All: map[string]string{}}
+	if o.Cover {
+		// vacuity probes only need "not unsat": a short single run is enough
+		st, out, ms := runSolver(context.Background(), solvers[0], fz, 2)
+		res.Status, res.Backend, res.Ms, res.Output = st, "z3-new", ms, out
+		return res
+	}
 	ctx, cancel := context.WithCancel(context.Background())
 	defer cancel()
 	// stage 1: z3-new alone, short
